@@ -53,12 +53,17 @@ TagOf(t) == IF IsIntText(Trim(t)) THEN "i:" \o IntCanon(Trim(t))
 
 (* ------------------------ bracket groups ------------------------------ *)
 (* matching closer of the opener at position i (nesting counted for that bracket pair only); 0 if unmatched *)
-RECURSIVE CloserFrom(_, _, _, _, _)
-CloserFrom(t, i, depth, open, close) ==
+(* inside "<...>" a "[...]" group is opaque: "<" and ">" in it do not count ("<[Met->Hse]@M>"); sq = its depth      *)
+RECURSIVE CloserScan(_, _, _, _, _, _)
+CloserScan(t, i, depth, open, close, sq) ==
     IF i > Len(t) THEN 0
-    ELSE IF At(t, i) = open THEN CloserFrom(t, i + 1, depth + 1, open, close)
-    ELSE IF At(t, i) = close THEN (IF depth = 1 THEN i ELSE CloserFrom(t, i + 1, depth - 1, open, close))
-    ELSE CloserFrom(t, i + 1, depth, open, close)
+    ELSE IF open = "<" /\ At(t, i) = "[" THEN CloserScan(t, i + 1, depth, open, close, sq + 1)
+    ELSE IF open = "<" /\ At(t, i) = "]" /\ sq > 0 THEN CloserScan(t, i + 1, depth, open, close, sq - 1)
+    ELSE IF sq > 0 THEN CloserScan(t, i + 1, depth, open, close, sq)
+    ELSE IF At(t, i) = open THEN CloserScan(t, i + 1, depth + 1, open, close, sq)
+    ELSE IF At(t, i) = close THEN (IF depth = 1 THEN i ELSE CloserScan(t, i + 1, depth - 1, open, close, sq))
+    ELSE CloserScan(t, i + 1, depth, open, close, sq)
+CloserFrom(t, i, depth, open, close) == CloserScan(t, i, depth, open, close, 0)
 
 (* one modification starting at the opener at position i: [ok, mod, next, err] *)
 ParseMod(t, i, open, close) ==
